@@ -8,10 +8,16 @@ CHECK = dict(
          "(manifest.New from raw or from the struct, RegClient.ManifestGet/ManifestHead against a registry model serving exactly those bytes "
          "and headers, ManifestGet on an OCI layout written raw, ManifestGet with an inline-data descriptor) x expected-digest sources "
          "(reference, descriptor, Docker-Content-Digest; each absent/correct/wrong/other algorithm/whole-envelope/malformed) x media type hints "
-         "x re-push target. Non-trivial = the client's canonical re-marshal of the body differs from the served bytes, or a source other than "
+         "x re-push target (tag, own digest, the other algorithm's digest, a wrong digest; registry model or layout) x reference form (tag, "
+         "implicit default tag, digest, tag+digest, none) x registry client with/without reg.WithCache x path through WithManifestPlatform "
+         "(wrapper index whose entry digest is the expected digest; registry and layout) x a second Get/Head by the reported digest before/after "
+         "the caller edited or pushed+edited the manifest it was given; layout HEAD and inline-data descriptors on a layout. "
+         "Non-trivial = the client's canonical re-marshal of the body differs from the served bytes, or a source other than "
          "'absent'/'correct sha256' is present; distinct by (entry, body, sources, hints). Part B: such a manifest built from raw / from its "
          "struct / unset+SetOrig with a sha256 or sha512 descriptor, followed by a program of 0-8 setter calls over Annotator, Imager, Indexer, "
-         "Subjecter and SetOrig with arguments derived from the current value (one-field differences, equal, reordered, empty, fresh). "
+         "Subjecter and SetOrig with arguments derived from the current value (one-field differences, equal, reordered, empty, fresh), and "
+         "'rebuild' steps that re-create the manifest from its own descriptor with the digest cleared and sha256/sha512 preferred (the image "
+         "mod digest-algorithm change) from its struct or raw body. "
          "Non-trivial = program length >= 2; distinct by the whole case.",
     jobs=[REPLAY,
           rapid("parta", "TestVerifPropA", 160_000, 8_000_000, sq=8, st=16),
